@@ -3228,9 +3228,12 @@ sse_rule_convsssql_sse41 (OrcCompiler *p, void *user, OrcInstruction *insn)
 {
   const int src = p->vars[insn->src_args[0]].alloc;
   const int dest = p->vars[insn->dest_args[0]].alloc;
+  // BLENDVPD takes its mask from X86_XMM0, which is overwritten below: get
+  // the backup register first, so that it is X86_XMM0 when that register
+  // is free and neither a constant nor tmp can be placed there
+  const int src_backup = orc_compiler_get_temp_reg (p);
   const int tmpc_max = orc_compiler_get_temp_constant (p, 8, INT32_MAX);
   const int tmpc_min = orc_compiler_get_temp_constant (p, 8, INT32_MIN);
-  const int src_backup = orc_compiler_get_temp_reg (p);
   const int tmp = orc_compiler_get_temp_reg (p);
   // Operate over tmp, because we don't know if src or dest are X86_XMM0
   orc_sse_emit_movdqa (p, src, tmp);
